@@ -66,6 +66,12 @@ RULE = (
     'Kronecker factors (p >= s+1) and an explicitly passed block size; rotation cases containing '
     'a leaf with >= 2 dimensions whose size is not a power of two. '
     'distinct = distinct canonical case JSON.')
+RULE += (
+    ' '
+    'Later widenings: 7-8 factor pairs run op by op; empty / one-element tuple nodes, integer'
+    ' leaves, tied leaves; typed key arrays; int32 vectors with 25-30 significant bits; the r'
+    'otation clauses in a child interpreter with JAX_THREEFRY_PARTITIONABLE=0; rotated trees '
+    'compared bit for bit with a child interpreter under another PYTHONHASHSEED.')
 ASSUMPTIONS = [
     'valid block size = power of two 2^1..2^8 for which the function does not '
     'raise its documented ValueError ("small_n is too small", i.e. more than 8 '
